@@ -56,6 +56,12 @@ func (m *ResourceManager) Get(key string, create func() (io.Closer, error)) (io.
 
 		m.lock.Lock()
 		defer m.lock.Unlock()
+		if m.resources == nil {
+			// Close 在 create 执行期间已经完成，再没有人会关闭这个刚创建的资源：
+			// 先关闭它以免泄漏，然后和 Close 之后的 Get 一样 panic。
+			_ = resource.Close()
+			panic("syncx: 在已关闭的 ResourceManager 上 Get")
+		}
 		m.resources[key] = resource
 
 		return resource, nil
